@@ -241,8 +241,25 @@ def rule_effect(facts, cg):
 def run(ctx):
     facts = ctx["facts"]
     cg = CallGraph(facts)
-    return [rule_ro(facts, cg), rule_wmc(facts, cg), rule_effect(facts, cg), rule_iso(facts), rule_seg(facts)]
+    return [rule_ro(facts, cg), rule_wmc(facts, cg), rule_effect(facts, cg), rule_iso(facts), rule_seg(facts), rule_cursor(facts, "C14-CURSOR", ["glaredb_core"], 1)]
 
+
+
+def rule_cursor(facts, rule, crates, floor):
+    """see rules/cursor.py"""
+    from .cursor import cursor_sites
+    r = RuleResult(rule, "a loop that decrements its remaining-count by the amount it hands to a copy/read call advances the offset argument of that "
+                   "call by the same amount (no slice of the input is processed twice, none is skipped)", floor=floor)
+    for s_ in cursor_sites(facts, crates):
+        r.functions.add(s_["fn"])
+        r.call_sites += 1
+        r.inst({k: v for k, v in s_.items() if k != "file"}, s_["advanced"])
+        if not s_["advanced"]:
+            r.violate(s_["fn"], f"cursor-not-advanced:{s_['callee']}:{s_['offset_param']}",
+                      f"the loop subtracts `{s_['amount']}` from `{s_['remaining']}` and passes it to `{s_['callee']}` (line {s_['line']}), but the `{s_['offset_param']}` "
+                      f"argument of that call is never advanced by `{s_['amount']}` inside the loop: every further iteration handles the same slice again "
+                      "(rows duplicated, the tail lost, counts unchanged)", s_["file"], s_["line"])
+    return r
 
 CLAIM = {
     "text": "Call-graph who-may-call rules plus MIR must-pass-through/provenance rules decide, for every code path, that write access is gated "
